@@ -197,7 +197,14 @@ def _shape_arg(v):
     return (_toint(v),)
 
 
-@handler("numpy.zeros", "numpy.empty")
+@handler("numpy.empty")
+def _empty(it, args, kwargs):
+    out = np.empty(_shape_arg(args[0]), dtype=object)
+    out[...] = sym.real("uninitialised!")       # reading an entry that was never written shows up in the result
+    return out
+
+
+@handler("numpy.zeros")
 def _zeros(it, args, kwargs):
     out = np.empty(_shape_arg(args[0]), dtype=object)
     out[...] = 0
